@@ -265,6 +265,18 @@ Theorem C07_restart_after_cut_keeps_rules :
 Proof. exact restart_after_cut_keeps_rules. Qed.
 Print Assumptions C07_restart_after_cut_keeps_rules.
 
+(* close() writes exactly the chain in memory, and a restart WITHOUT any crash loads exactly what was stored
+   (same bytes, same length) whenever that chain links and starts with the genesis block -- in particular after
+   a reorganisation to a shorter chain nothing of the abandoned tail comes back *)
+Theorem C07_close_reopen_exact :
+  forall (sha256 : bytes -> bytes) (c : cfg) (s : st) (f : option bytes) (hs : list bytes),
+  io s = concat hs -> Forall (fun x : bytes => length x = HS) hs -> linked sha256 hs ->
+  (forall x, nth_error hs 0 = Some x -> repair_genesis_ok sha256 c x = true) ->
+  hclose s f = io s /\
+  load_repair sha256 c (hclose s f) = mkSt (io s) (length hs) [].
+Proof. exact close_reopen_exact. Qed.
+Print Assumptions C07_close_reopen_exact.
+
 (* ---- the two repaired defects, machine-checked on models of the OLD code ---- *)
 (* before 64a9e0b: a fork shorter than the old tail, then the old chain's continuation at len(headers):
    all accepted, 4 headers counted, broken link inside the chain that ends with the last connected batch *)
@@ -305,3 +317,15 @@ Example C07_ex_retarget :
   compact (next_target (65535 * 2 ^ 224 + (2 ^ 224 - 1))
              None (Some (repeat x00 104 ++ [xff; xff; x00; x1f] ++ repeat x00 4))) = 520151366%N.
 Proof. vm_compute. reflexivity. Qed.
+
+(* before the close() fix: 3 headers on disk, 2 in memory after a shorter fork; the 'r+b' overwrite kept the third,
+   the next open() loaded 3 headers with a broken link; the repaired close reloads the 2 that were stored *)
+Theorem C07_close_old_refuted :
+  let old_file := wA0 ++ wA1 ++ wA2 in
+  let s := mkSt (wA0 ++ wB1) 2 [] in
+  let reloaded := load_repair toy w_cfg (hclose_old s (Some old_file)) in
+  (hsize reloaded, validate toy toy toy w_cfg None None (chunks 3 (io reloaded)),
+   hsize (load_repair toy w_cfg (hclose s (Some old_file))))
+  = (3, Some RPrev, 2).
+Proof. exact close_old_refuted. Qed.
+Print Assumptions C07_close_old_refuted.
